@@ -184,6 +184,31 @@ def gen_files(rng, tier):
             for h in rng.sample(c["haps"], rng.randint(1, len(c["haps"]))):
                 h["vars"].append([f"absent{len(c['absent'])}", "A"])
                 c["absent"].append(h["id"])
+        if rng.random() < 0.12:
+            # many haplotypes, six or more of them with a (distinct) variant the genotypes lack
+            k = 0
+            while len(c["haps"]) < 9:
+                src = c["haps"][k % len(c["haps"])]
+                c["haps"].append({**src, "id": f"extra{k}", "vars": [list(v) for v in src["vars"] if not v[0].startswith("absent")]})
+                k += 1
+            c["absent"] = []
+            for h in c["haps"]:
+                h["vars"] = [v for v in h["vars"] if not v[0].startswith("absent")]
+            for h in rng.sample(c["haps"], rng.randint(6, len(c["haps"]) - 1)):
+                h["vars"].append([f"absent{len(c['absent'])}", "A"])
+                c["absent"].append(h["id"])
+        if c["anc_source"] == "bp" and rng.random() < 0.4 and len(c["variants"]) >= 4:
+            # every transformed haplotype on one chromosome while the breakpoints (and the genotype file) cover two
+            chrom = rng.choice(["1", "2"])
+            on = {v["id"] for v in c["variants"] if v["chrom"] == chrom}
+            kept = []
+            for h in c["haps"]:
+                vs = [v for v in h["vars"] if v[0] in on or v[0].startswith("absent")]
+                if any(v[0] in on for v in vs):
+                    kept.append({**h, "chrom": chrom, "vars": vs})
+            if kept:
+                c["haps"] = kept
+                c["absent"] = [h["id"] for h in kept if any(v[0].startswith("absent") for v in h["vars"])]
         c["ids"] = rng.choice([None, None, [h["id"] for h in rng.sample(c["haps"], rng.randint(1, len(c["haps"])))]])
         c["sample_subset"] = rng.choice([None, None, rng.sample(c["samples"], rng.randint(1, len(c["samples"])))])
         c["bp_order"] = rng.sample(range(len(c["samples"])), len(c["samples"]))
